@@ -9,7 +9,7 @@
      identifier    -> identifier-head identifier-characters?  |  ` identifier-head identifier-characters? `
                      identifier-head = ASCII letter | _ | any code point >= 128 (the book lists the ranges; not checked)
                      a back-ticked identifier is the token WTick, a plain one WId (keywords are WId too: which WId is
-                     admitted where is the parser's business)
+                     allowed where is the parser's business)
      numeric-literal a digit followed by letters, digits, "_" and "." (one token WNum; the inside is not checked)
      static-string-literal -> DQUOTE quoted-text? DQUOTE     no line break inside; escaped-character -> \0 \\ \t \n \r \DQUOTE \QUOTE
                      | \u{ unicode-scalar-digits } (1 to 8 hexadecimal digits).  Interpolation \( and multiline / extended
@@ -19,8 +19,8 @@
    SYNTAX (the subset)
      top-level-declaration -> statements?         here: declarations only, each starting on a line of its own (the language:
                      "statements on one line must be separated by ;") - a declaration is followed by a line break, a `;`
-                     or the end of the text.  Line breaks are admitted exactly where the grammar below says NL; the
-                     language admits them at more places: the recogniser is STRICTER than the language there.
+                     or the end of the text.  Line breaks are allowed exactly where the grammar below says NL; the
+                     language allows them at more places: the recogniser is STRICTER than the language there.
      declaration  -> import-declaration | constant-declaration | variable-declaration | typealias-declaration
                    | function-declaration | enum-declaration | struct-declaration | initializer-declaration
                    | extension-declaration                                      (no class / protocol / subscript / operator)
@@ -66,7 +66,7 @@
      generic-argument-clause -> < type { , type } >
    An identifier at a declaring position or naming a type is a back-ticked identifier or a plain one that is not a
    reserved word ("Keywords and Punctuation": the keywords used in declarations, statements, expressions and types, and
-   the wildcard _); Any and Self are admitted as type names.
+   the wildcard _); Any and Self are allowed as type names.
 
    [c10_sw_recognise text] = Some n : the text is a file of this grammar with n top-level declarations. *)
 From Coq Require Import String.
